@@ -53,6 +53,7 @@ var Registry = map[string]func(c *Ctx, arg string) error{
 		}
 		if arg == "crash" {
 			RunSyncCrashEnum(c)
+			RunSyncWriteError(c)
 			return nil
 		}
 		if arg == "retrieve" {
@@ -66,6 +67,7 @@ var Registry = map[string]func(c *Ctx, arg string) error{
 			return nil
 		}
 		RunSyncStopQueued(c)
+		RunSyncHandOverStop(c)
 		RunSyncP2PAfterIdle(c)
 		if c.Thorough() {
 			RunSyncRandom(c, 150)
